@@ -138,6 +138,19 @@ def rule_b(ctx: Ctx) -> None:
     pr = [n for n in g.nodes if n.kind == 'stmt' and isinstance(n.ast, ast.Delete) and text(n.ast.targets[0]) == 'elem[:]']
     ctx.ob(rule, '_clear empties the subtree (children deleted; attributes, text and tail kept)', f.loc(pr[0].ast) if pr else f.loc(), len(pr) == 1, '',
            key='_clear|prune', nontrivial=False)
+    # the lazy XPath tree caches the children of the root: it is reset by every pruning, on every path (identity selectors and
+    # iterfind evaluate their paths on it for the chunks that follow)
+    resets = [n for n, c in call_nodes(g, lambda c: text(c.func) in ('self._xpath_root.children.clear', 'self.xpath_root.children.clear'))]
+    tests_x = [n for n in g.nodes if n.kind == 'if' and text(n.ast.test) in ('self._xpath_root is not None', 'self._xpath_root')]
+    okx = bool(resets)
+    if okx:
+        from .common import reach_cut as _rc
+        # a normal exit reached without a reset and without the "no XPath tree yet" branch
+        live = _rc(g, [g.entry], {(t, 'F') for t in tests_x}, avoid=resets, kinds='nTF')
+        okx = g.exit not in live
+    ctx.ob(rule, '_clear resets the cached children of the lazy XPath root on every path (unless no XPath tree exists yet)', f.loc(resets[0].ast) if resets else f.loc(),
+           okx, '' if okx else 'a return is reachable without the reset: after such a chunk the XPath tree keeps the children it had - selectors of root-level '
+           'identity constraints and iterfind() stop seeing the chunks parsed later (keys missed, references reported dangling)', key='_clear|xpath-reset')
     thin = [n for n in g.nodes if n.kind == 'if' and 'self._thin_lazy' in text(n.ast.test)]
     ok = bool(thin) and all('ancestors' in text(n.ast.test) for n in thin)
     ctx.ob(rule, '_clear removes preceding siblings only for thin lazy resources that track ancestors', f.loc(thin[0].ast) if thin else f.loc(), ok, '',
